@@ -108,6 +108,11 @@ struct PropDef {
   // hand-written deterministic reproductions of recorded findings (stable across generator changes):
   // returns normally if the property holds on fixed case k, throws Fail otherwise; used by `--fixed k`
   void (*fixed)(unsigned k, CaseInfo&) = nullptr;
+  // exhaustive sweep of a small finite sub-domain (DESIGN.md 2.4): sweep_count() items, each checked by
+  // sweep_item(i); run by `--sweep` on all workers, a failing item is replayable with `--sweep-one i`
+  uint64_t (*sweep_count)() = nullptr;
+  void (*sweep_item)(uint64_t i, CaseInfo&) = nullptr;
+  const char* sweep_rule = nullptr;
 };
 extern PropDef g_prop;
 
